@@ -4,7 +4,7 @@
 //!
 //! stdin, one case per line:
 //!   case sndbuf=<n> pre=<k> | <msg> | <msg> ...
-//!   <msg> := bo=<l|B> hv=<0..5> plen=<n> flags=<n> preset=<n|-> nfds=<n> pay=<len> seed=<n> mode=<push|parts> off=<n> script=<op,op,...>
+//!   <msg> := [api=wall (send_message_write_all with a draining thread; the script is ignored, log is M:ok)] bo=<l|B> hv=<0..5> plen=<n> flags=<n> preset=<n|-> nfds=<n> pay=<len> seed=<n> mode=<push|parts> off=<n> script=<op,op,...>
 //!   ops: w (write_once Nonblock)  d<n> (peer reads up to n bytes)  s (into_progress)  r (resume)
 //!        W (write(Nonblock))  T (write(Duration 1ms))  F (finish: write(Nonblock)/drain loop)
 //!        A (finish: write_all with a draining thread)
@@ -124,6 +124,33 @@ impl Peer {
         assert!(r == 0);
         n as usize
     }
+}
+
+/// run `f` (a blocking send) while another thread keeps emptying the peer's queue
+fn with_drain<R: Send>(peer: &mut Peer, f: impl FnOnce() -> R + Send) -> R {
+    let stop = std::sync::Arc::new(std::sync::atomic::AtomicBool::new(false));
+    let stop2 = stop.clone();
+    std::thread::scope(|sc| {
+        let h = sc.spawn(move || {
+            let mut pfd = [nix::poll::PollFd::new(
+                unsafe { BorrowedFd::borrow_raw(peer.stream.as_raw_fd()) },
+                nix::poll::PollFlags::POLLIN,
+            )];
+            loop {
+                let fin = stop2.load(std::sync::atomic::Ordering::SeqCst);
+                let n = nix::poll::poll(&mut pfd, 20u16).unwrap_or(0);
+                if n > 0 {
+                    peer.drain(usize::MAX);
+                } else if fin {
+                    break;
+                }
+            }
+        });
+        let r = f();
+        stop.store(true, std::sync::atomic::Ordering::SeqCst);
+        h.join().unwrap();
+        r
+    })
 }
 
 fn build_msg(kv: &HashMap<&str, &str>, pipes: &[(OwnedFd, OwnedFd)]) -> (MarshalledMessage, Vec<u8>) {
@@ -257,6 +284,26 @@ fn run_case(line: &str) -> String {
             let send_ptr: *mut rustbus::connection::ll_conn::SendConn = &mut conn.send;
             let mut active: Option<SendMessageContext> = None;
             let mut suspended: Option<SendMessageState> = None;
+            let wall = kv.get("api").map(|a| *a == "wall").unwrap_or(false);
+            if wall {
+                // the public wrapper send_message_write_all: blocking, the kernel still cuts the message into
+                // short writes because the send buffer is small and the peer is emptied concurrently
+                let sc = unsafe { &mut *send_ptr };
+                let mref = &msg;
+                let r = with_drain(&mut peer, move || sc.send_message_write_all(mref));
+                match r {
+                    Ok(s) => {
+                        reported = Some(s.get());
+                        rustbus::wire::marshal::marshal(&msg, s, &mut expected_hdr).unwrap();
+                        total = expected_hdr.len() + body.len();
+                        log.push(format!("M:ok@{}", peer.bytes.len() + peer.inq()));
+                    }
+                    Err(e) => {
+                        log.push(format!("M:X{:?}@{}", e, peer.bytes.len() + peer.inq()).replace([' ', ','], "_"));
+                    }
+                }
+                send_err = true; // nothing more to do for this message: skip the script
+            } else {
             match unsafe { &mut *send_ptr }.send_message(&msg) {
                 Ok(ctx) => {
                     total = ctx.bytes_total();
@@ -268,13 +315,18 @@ fn run_case(line: &str) -> String {
                     send_err = true;
                 }
             }
+            }
+            let skip_script = send_err;
+            if wall {
+                send_err = false;
+            }
             let mut ops: Vec<&str> = kv["script"].split(',').filter(|s| !s.is_empty()).collect();
             if !ops.iter().any(|o| *o == "F" || *o == "A") {
                 ops.push("F");
             }
             let mut acc_before = 0usize;
             for op in ops {
-                if send_err {
+                if skip_script {
                     break;
                 }
                 let done = reported.is_some();
@@ -353,30 +405,7 @@ fn run_case(line: &str) -> String {
                         let ctx0 = active.take().unwrap();
                         if op == "A" {
                             // blocking write_all while another thread empties the peer's queue
-                            let stop = std::sync::Arc::new(std::sync::atomic::AtomicBool::new(false));
-                            let stop2 = stop.clone();
-                            let res = std::thread::scope(|sc| {
-                                let peer_ref = &mut peer;
-                                let h = sc.spawn(move || {
-                                    let mut pfd = [nix::poll::PollFd::new(
-                                        unsafe { BorrowedFd::borrow_raw(peer_ref.stream.as_raw_fd()) },
-                                        nix::poll::PollFlags::POLLIN,
-                                    )];
-                                    loop {
-                                        let fin = stop2.load(std::sync::atomic::Ordering::SeqCst);
-                                        let n = nix::poll::poll(&mut pfd, 20u16).unwrap_or(0);
-                                        if n > 0 {
-                                            peer_ref.drain(usize::MAX);
-                                        } else if fin {
-                                            break;
-                                        }
-                                    }
-                                });
-                                let r = ctx0.write_all();
-                                stop.store(true, std::sync::atomic::Ordering::SeqCst);
-                                h.join().unwrap();
-                                r
-                            });
+                            let res = with_drain(&mut peer, move || ctx0.write_all());
                             match res {
                                 Ok(s) => {
                                     reported = Some(s.get());
